@@ -3,107 +3,8 @@
 //! woven files UNDER KANI ONLY (`#[cfg(kani)] use crate::mvec::Vec;` appended by weave).
 //! Reason: std Vec's amortised growth makes allocation sizes path-dependent; after CBMC merges
 //! paths the heap objects have symbolic size, go to the array theory, and its post-processing
-//! exhausts memory (DESIGN.md section 2). Pushing beyond `MVEC_CAP` is an assertion failure
+//! exhausts memory (DESIGN.md section 2). Two capacities: `mvec::Vec` (4) for the packet list fields, `mvec8::Vec` (8) for topic levels.
+//! Pushing beyond `MVEC_CAP` is an assertion failure
 //! (reported), never a silent drop.
-use std::{fmt, mem::MaybeUninit, ops::Deref};
-
 pub const MVEC_CAP: usize = 4;
-
-pub struct Vec<T> {
-    items: [MaybeUninit<T>; MVEC_CAP],
-    len: usize,
-}
-
-impl<T> Vec<T> {
-    pub const fn new() -> Self {
-        Vec { items: [const { MaybeUninit::uninit() }; MVEC_CAP], len: 0 }
-    }
-    pub fn with_capacity(_n: usize) -> Self {
-        Self::new()
-    }
-    pub fn push(&mut self, v: T) {
-        assert!(self.len < MVEC_CAP, "model capacity (MVEC_CAP) exceeded");
-        self.items[self.len] = MaybeUninit::new(v);
-        self.len += 1;
-    }
-    pub fn len(&self) -> usize {
-        self.len
-    }
-    pub fn is_empty(&self) -> bool {
-        self.len == 0
-    }
-    pub fn clear(&mut self) {
-        // element types in the model have no drop glue (Bytes/ByteString are Copy views)
-        self.len = 0;
-    }
-    pub fn as_slice(&self) -> &[T] {
-        unsafe { std::slice::from_raw_parts(self.items.as_ptr() as *const T, self.len) }
-    }
-    pub fn iter(&self) -> std::slice::Iter<'_, T> {
-        self.as_slice().iter()
-    }
-}
-impl<T> Default for Vec<T> {
-    fn default() -> Self {
-        Self::new()
-    }
-}
-impl<T> Deref for Vec<T> {
-    type Target = [T];
-    fn deref(&self) -> &[T] {
-        self.as_slice()
-    }
-}
-impl<T> AsRef<[T]> for Vec<T> {
-    fn as_ref(&self) -> &[T] {
-        self.as_slice()
-    }
-}
-impl<'a, T> IntoIterator for &'a Vec<T> {
-    type Item = &'a T;
-    type IntoIter = std::slice::Iter<'a, T>;
-    fn into_iter(self) -> Self::IntoIter {
-        self.as_slice().iter()
-    }
-}
-impl<T: Clone> Clone for Vec<T> {
-    fn clone(&self) -> Self {
-        let mut v = Vec::new();
-        let mut i = 0;
-        while i < self.len {
-            v.push(self.as_slice()[i].clone());
-            i += 1;
-        }
-        v
-    }
-}
-impl<T: PartialEq> PartialEq for Vec<T> {
-    fn eq(&self, o: &Self) -> bool {
-        if self.len != o.len {
-            return false;
-        }
-        let mut i = 0;
-        while i < self.len {
-            if self.as_slice()[i] != o.as_slice()[i] {
-                return false;
-            }
-            i += 1;
-        }
-        true
-    }
-}
-impl<T: Eq> Eq for Vec<T> {}
-impl<T: fmt::Debug> fmt::Debug for Vec<T> {
-    fn fmt(&self, f: &mut fmt::Formatter<'_>) -> fmt::Result {
-        f.debug_list().entries(self.as_slice().iter()).finish()
-    }
-}
-impl<T> FromIterator<T> for Vec<T> {
-    fn from_iter<I: IntoIterator<Item = T>>(it: I) -> Self {
-        let mut v = Vec::new();
-        for x in it {
-            v.push(x);
-        }
-        v
-    }
-}
+include!("mvec_body.rs");
